@@ -323,6 +323,10 @@ func checkC19(c *km.Ctx) {
 		if n == 0 {
 			r.AnchorLost("R-C19-3", "agent Remove in deleteDuplicateEntries")
 		}
+		// every entry of the agent is looked at: the loop over the listed keys is left only at its end or with an
+		// error (a removal routine that stops at the first match leaves the other certificates of that label)
+		early := loopLeftEarly(c, fn)
+		r.Add("R-C19-3", km.FuncName(fn), "every listed key is examined", c.P.Pos(fn.Pos()), "the loop over the agent's keys ends only when exhausted or with an error", early, early == "")
 		// a removal error is returned
 		okErr := true
 		for _, rc := range s.RetCases(fn) {
